@@ -263,7 +263,11 @@ def run_cg(ctx, model, case):
         bad = ("num_iter", im["num_iter"], K)
     elif not vclose(im["x"], mo["x"], k):
         bad = ("x", tolist(im["x"]), tolist(mo["x"]))
-    elif not common.close(im["rel_res"], mo["rel_res"], k):
+    elif not common.close(im["rel_res"], mo["rel_res"], k) and not (
+        # b = 0: the quotient is 0/0 (NaN) or x/0 (inf) depending on whether the final num is exactly zero or at rounding
+        # level - both mean "undefined" (design/C14.md); they are only required to be non-finite on both sides
+        not np.any(bv) and not math.isfinite(im["rel_res"]) and not math.isfinite(mo["rel_res"])
+    ):
         bad = ("rel_res", im["rel_res"], mo["rel_res"])
     else:
         # iterates: A is called on x0 then on p_0 .. p_{K-1}; M on r_0 .. r_K
